@@ -3,8 +3,9 @@ from ..core import Script
 
 ID = "C07"
 SUITES = ["rot"]
-LEAN_MODULES = ["VpnCloud.Proofs.C07"]
-THEOREMS = ["VpnCloud.Rot.rotation_sync", "VpnCloud.Rot.inv_step", "VpnCloud.Rot.inv_init"]
+LEAN_MODULES = ["VpnCloud.Proofs.C07", "VpnCloud.Proofs.C07More"]
+THEOREMS = ["VpnCloud.Rot.rotation_sync", "VpnCloud.Rot.inv_step", "VpnCloud.Rot.inv_init",
+            "VpnCloud.Rot.inv_reachable", "VpnCloud.Rot.ids_interlock", "VpnCloud.Rot.sent_ids_bounded", "VpnCloud.Rot.only_latest_matters", "VpnCloud.Rot.receive_before_send", "VpnCloud.Rot.receive_before_send_y", "VpnCloud.Rot.latest_sent", "VpnCloud.Rot.lockstep_progress", "VpnCloud.Rot.lockstep_fresh", "VpnCloud.Rot.lockstep_new_keys", "VpnCloud.Rot.lockstep_fresh_keys"]
 BATCH = 100
 SEARCH_BUDGET_S = 300
 RULE = ("suite rot: real RotationState objects + real CryptoCore key slots; all schedules over {cycle at A, cycle at B, deliver any rotation message "
